@@ -77,4 +77,28 @@ ITEMS = [
          ensures=[('C09:reader_input_loses_a_leading_byte_order_mark_like_str_and_slice_input', 'r.strips_utf8_bom()'),
                   ('C09:reader_input_is_transcoded_from_the_encoding_its_byte_order_mark_announces', 'r.sniffs_encoding()')],
          canaries=['C09:reader_input_loses_a_leading_byte_order_mark_like_str_and_slice_input']),
+    # ---- writer side of C10: an I/O failure of the output is never swallowed and what was written is a prefix ----
+    dict(src='src/lib.rs', path='fn to_io_writer_with_options/struct Adapter',
+         rewrites=[(r"struct Adapter<'a, W: std::io::Write>", "struct Adapter<'a>", 1, 'R9'), (r"output: &'a mut W,", "output: &'a mut ByteSink,", 1, 'R9'),
+                   (r'Option<std::io::Error>', 'Option<IoErr>', 1, 'R6')]),
+    dict(src='src/lib.rs', path='fn to_io_writer_with_options/impl std::fmt::Write for Adapter/fn write_str', id='Adapter::write_str',
+         impl_header="impl<'a> Adapter<'a>", props=['C10', 'C01'],
+         rewrites=[(r'-> std::fmt::Result', '-> Result<(), FmtErr>', 1, 'R6'), (r'std::fmt::Error', 'FmtErr', None, 'R6'),
+                   (r's\.as_bytes\(\)', 'str_as_bytes(s)', 1, 'R8')],
+         ensures=[('C10:a_failed_write_is_remembered_for_the_caller', 'r is Err ==> final(self).last_err is Some'),
+                  ('C10:a_successful_write_appends_exactly_the_text', 'r is Ok ==> final(self).output.written() == old(self).output.written() + s.spec_bytes() && final(self).last_err == old(self).last_err'),
+                  ('C10:after_a_failure_the_output_holds_a_prefix_of_what_was_to_be_written',
+                   'r is Err ==> exists|k: int| 0 <= k <= s.spec_bytes().len() && final(self).output.written() == old(self).output.written() + #[trigger] s.spec_bytes().take(k)')],
+         canaries=['C10:a_failed_write_is_remembered_for_the_caller']),
+    dict(src='src/lib.rs', path='fn to_io_writer_with_options', id='to_io_writer_with_options#result', props=['C10', 'C01'],
+         fragment=r'match value\.serialize\(&mut ser\) \{.*\}\s*\}\s*\}', fragment_flags='S',
+         wrapper="fn io_writer_result_fragment<'a>(res: Result<(), SerErr>, adapter: &mut Adapter<'a>) -> Result<(), SerErr> { {FRAG} }",
+         pre_rewrites=[(r'match value\.serialize\(&mut ser\) \{', 'match res {', 1, 'R9'),
+                       (r'crate::ser::Error::from\(io_error\)', 'ser_error_from_io(io_error)', 1, 'R8'),
+                       (r'\}\s*\}\s*\}\s*$', '} }', 1, 'R9')],
+         ensures=[('C10:a_write_failure_of_the_output_is_what_serialization_returns',
+                   'res is Err && old(adapter).last_err is Some ==> r is Err && ser_err_io(r->Err_0) == old(adapter).last_err'),
+                  ('C10:any_other_failure_is_passed_on', 'res is Err && old(adapter).last_err is None ==> r == res'),
+                  ('success_is_passed_on', 'res is Ok ==> r is Ok')],
+         canaries=['C10:a_write_failure_of_the_output_is_what_serialization_returns']),
 ]
